@@ -36,10 +36,16 @@ def queryBatch (s : CState) (id : Nat) : R BatchResp :=
   | none => .error (.std "NotFound")
   | some b => batchToResponse b
 
+/-- the optional status filter of `query_batches` -/
+def statusFilter (status : Option BatchStatus) (b : Batch) : Bool :=
+  match status with
+  | none => true
+  | some st => b.status = st
+
 /-- the batches `query_batches` selects, before conversion -/
 def selectBatches (s : CState) (startAfter : Option Nat) (limit : Option Nat)
     (status : Option BatchStatus) : List Batch :=
-  paginate s.batches startAfter limit (fun b => match status with | none => true | some st => b.status = st)
+  paginate s.batches startAfter limit (statusFilter status)
 
 /-- `query_batches` -/
 def queryBatches (s : CState) (startAfter : Option Nat) (limit : Option Nat)
